@@ -13,8 +13,10 @@ import (
 
 func ghostHeapSort(name string) Sort {
 	switch name {
-	case "G:buf", "G:wr":
+	case "G:buf", "G:wr", "G:fs":
 		return ArrOf(SInt, SString)
+	case "G:ftrunc":
+		return ArrOf(SInt, SBool)
 	case "G:rdpos", "G:xdpos", "G:xddepth":
 		return ArrOf(SInt, SInt)
 	case "G:jeEsc", "G:jdNum":
@@ -65,6 +67,8 @@ func ghostIntrinsicHeaps(fn *ssa.Function) []string {
 		return []string{"G:rdeof"}
 	case "verifWritten":
 		return []string{"G:wr"}
+	case "verifFile":
+		return []string{"G:fs"}
 	case "verifTokPos":
 		return []string{"G:xdpos"}
 	case "verifTokDepth":
@@ -204,6 +208,8 @@ func (c *FnCtx) ghostIntrinsic(fr *Frame, st *State, fn *ssa.Function, args []*T
 			ts.Eq(c.hget(st, mh.dom, mh.sdom, args[1]), c.hget(ent, mh.dom, mh.sdom, args[1])),
 			ts.Eq(c.hget(st, mh.sel, mh.ssel, args[1]), c.hget(ent, mh.sel, mh.ssel, args[1])),
 			ts.Eq(c.hget(st, mh.ln, mh.sln, args[1]), c.hget(ent, mh.ln, mh.sln, args[1])))}, true
+	case "verifFile": // content of the file at a path in the ghost file system
+		return []*Term{c.gget(st, "G:fs", ts.UF("fsid", SInt, args[0]))}, true
 	case "verifIsNaN":
 		return []*Term{ts.UF("f64!isnan", SBool, args[0])}, true
 	case "verifIsInf":
@@ -759,7 +765,38 @@ func (c *FnCtx) modelMore(fr *Frame, st *State, x *ssa.Call, name string, args [
 		} else {
 			c.addFact(st, ts.Eq(isNil, ts.Not(ts.Eq(res[0], ts.Int(0)))))
 		}
+		if (name == "os.Create" || name == "os.OpenFile") && res[0].sort == SInt {
+			// ghost file system: content per path; a file opened for writing is bound to its path; only a
+			// truncating open (os.Create, or OpenFile with O_TRUNC and write access) starts from empty content
+			use("os.Create / os.OpenFile(O_TRUNC): on success the file is empty and bound to the path; without O_TRUNC the resulting content is unknown")
+			fsid := ts.UF("fsid", SInt, args[0])
+			trunc := ts.Bool(name == "os.Create")
+			if name == "os.OpenFile" {
+				if fl, ok := args[1].IntLit(); ok {
+					trunc = ts.Bool(fl&0x200 != 0 && fl&0x3 != 0)
+				} else {
+					trunc = ts.Fresh("os!trunc", SBool)
+				}
+			}
+			c.addFact(st, ts.Implies(isNil, ts.Eq(ts.UF("filefs", SInt, res[0]), fsid)))
+			c.gset(st, "G:ftrunc", res[0], trunc)
+			old := c.gget(st, "G:fs", fsid)
+			c.gset(st, "G:fs", fsid, ts.Ite(ts.And(isNil, trunc), ts.Str(""), ts.Ite(isNil, old, ts.Fresh("os!content", SString))))
+		}
 		return res
+	case "(*os.File).WriteString":
+		use("(*os.File).WriteString(s): writes a prefix s[:n] at the end of a file opened truncating; n == len(s) exactly when err == nil")
+		n := ts.Fresh("fw!n", SInt)
+		e := ts.Fresh("fw!err", SVal)
+		c.addFact(st, ts.And(ts.Le(ts.Int(0), n), ts.Le(n, ts.Len(args[1]))))
+		c.addFact(st, ts.Or(c.eng.tc.IsNilVal(e), ts.App("(_ is VBox)", SBool, e)))
+		c.addFact(st, ts.Eq(c.eng.tc.IsNilVal(e), ts.Eq(n, ts.Len(args[1]))))
+		fsid := ts.UF("filefs", SInt, args[0])
+		old := c.gget(st, "G:fs", fsid)
+		c.gset(st, "G:fs", fsid, ts.Ite(c.gget(st, "G:ftrunc", args[0]), ts.Concat(old, ts.Extract(args[1], ts.Int(0), n)), ts.Fresh("os!content", SString)))
+		return []*Term{n, e}
+	case "(*os.File).Close":
+		return []*Term{ts.Fresh("close!err", SVal)}
 	}
 	// functions of the mxj core called from a compatibility sub-package: deterministic summaries threaded through a
 	// ghost "world" token (any core call may change Maps and is ordered after the previous ones)
